@@ -528,7 +528,10 @@ func judge(c Case) (*vf.Failure, string) {
 	}
 	exe := filepath.Join(dir, "main")
 	lr := ddp.LinkObject(dir, obj, exe, true, false, filepath.Join(dir, "ext.o"), filepath.Join(ddp.Work, "obj/memledger.o"), "-Wl,--wrap=ddp_reallocate")
-	if lr.Exit != 0 || lr.TimedOut {
+	if lr.TimedOut {
+		return nil, "inconclusive-link-timeout"
+	}
+	if lr.Exit != 0 {
 		return vf.NewFailure("C18:link", fmt.Sprintf("-O %d: the object does not link against the C file (symbol name / signature):\n%s\n%s", c.Level, ddp.Trunc(lr.Stderr, 1500), dump(c.Files)), c), "violation"
 	}
 	r, st := ddp.ExecChecked(dir, exe)
